@@ -182,13 +182,18 @@ mcls_st = st.sampled_from(MUTABLE)
 # promotable operands
 
 PROMO_KINDS = ['str_bin', 'str_hex', 'bytes', 'bytearray', 'memoryview', 'list', 'tuple', 'bitarray', 'Bits', 'BitArray',
-               'ConstBitStream', 'BitStream', 'array', 'gen', 'frozenbitarray', 'BytesIO', 'list_truthy', 'iter_truthy', 'map_truthy']
+               'ConstBitStream', 'BitStream', 'array', 'gen', 'frozenbitarray', 'BytesIO', 'list_truthy', 'iter_truthy', 'map_truthy',
+               'memoryview_H', 'memoryview_I', 'memoryview_2d', 'memoryview_ro', 'array_H', 'bitarray_little', 'bitarray_buffer']
 
 
 def promo_ok(kind, bits):
     n = len(bits)
-    if kind in ('bytes', 'bytearray', 'memoryview', 'array', 'BytesIO'):
+    if kind in ('bytes', 'bytearray', 'memoryview', 'array', 'BytesIO', 'memoryview_ro', 'bitarray_buffer'):
         return n % 8 == 0
+    if kind in ('memoryview_H', 'memoryview_2d', 'array_H'):
+        return n % 16 == 0 and n > 0
+    if kind == 'memoryview_I':
+        return n % 32 == 0 and n > 0
     if kind == 'str_hex':
         return n % 4 == 0 and n > 0
     if kind == 'str_bin':
@@ -231,6 +236,21 @@ def make_promotable(kind, bits):
         return map(lambda v: v, items)
     if kind == 'bitarray':
         return bitarray.bitarray(bits)
+    if kind == 'bitarray_little':
+        return bitarray.bitarray(bits, endian='little')     # same bits in index order, other storage order
+    if kind == 'bitarray_buffer':
+        return bitarray.bitarray(buffer=to_bytes(bits), endian='big')      # read-only bitarray over a bytes object
+    # buffers whose items are wider than a byte or that have more than one dimension: the bytes in memory order are the content
+    if kind == 'memoryview_H':
+        return memoryview(array.array('H', to_bytes(bits)))
+    if kind == 'array_H':
+        return array.array('H', to_bytes(bits))
+    if kind == 'memoryview_I':
+        return memoryview(to_bytes(bits)).cast('I')
+    if kind == 'memoryview_2d':
+        return memoryview(to_bytes(bits)).cast('B', (2, len(bits) // 16))
+    if kind == 'memoryview_ro':
+        return memoryview(bytearray(to_bytes(bits))).toreadonly()
     if kind == 'frozenbitarray':
         return bitarray.frozenbitarray(bits)
     if kind == 'array':
@@ -294,7 +314,8 @@ def lenbucket(n):
 # in-memory construction routes: every route builds an object of class clsname holding exactly `bits`
 
 MEM_ROUTES = ['bin', 'auto_bin', 'hex_or_bin', 'slice_of_longer', 'bytes_offset', 'concat', 'bitarray', 'bitarray_kw', 'iterable', 'from_other_class',
-              'fromstring', 'join', 'copy', 'bytesio_offset', 'pack_bits', 'cache_hit']
+              'fromstring', 'join', 'copy', 'bytesio_offset', 'pack_bits', 'cache_hit', 'bitarray_little', 'bitarray_little_kw', 'frozenbitarray',
+              'memoryview_wide', 'memoryview_wide_kw', 'bitarray_buffer']
 
 
 POSITIONAL_ROUTES = {'slice_of_longer'}
@@ -352,6 +373,29 @@ def _build_route(clsname, bits, route, salt=0):
     if route == 'bitarray_kw':
         off = salt % 5
         return c(bitarray=_ba.bitarray('1' * off + bits + '0' * (salt % 3)), offset=off, length=n)
+    if route == 'bitarray_little':
+        return c(_ba.bitarray(bits, endian='little'))
+    if route == 'bitarray_little_kw':
+        off = salt % 5
+        return c(bitarray=_ba.bitarray('1' * off + bits + '01', endian='little'), offset=off, length=n)
+    if route == 'frozenbitarray':
+        return c(_ba.frozenbitarray(bits))
+    if route == 'bitarray_buffer':
+        # a (read-only) bitarray that is a view of somebody else's bytes
+        padded = bits + '1' * (-n % 8)
+        return c(bitarray=_ba.bitarray(buffer=to_bytes(padded), endian='big'), length=n)
+    if route in ('memoryview_wide', 'memoryview_wide_kw'):
+        # a buffer whose items are wider than one byte (or that has two dimensions): its bytes in memory order are the content
+        off = 8 * (salt % 3) if route == 'memoryview_wide_kw' else 0
+        padded = '1' * off + bits
+        padded += '1' * (-len(padded) % 32)
+        if not padded:
+            return c(bytes=memoryview(b''), length=0)
+        raw = to_bytes(padded)
+        mv = [memoryview(array.array('H', raw)), memoryview(raw).cast('I'), memoryview(raw).cast('B', (2, len(raw) // 2)), memoryview(bytearray(raw)).toreadonly()][salt % 4]
+        if route == 'memoryview_wide' and len(padded) == n and n:
+            return c(mv)
+        return c(bytes=mv, offset=off, length=n)
     if route == 'iterable':
         if n > 4000:
             return c(bin=bits)
